@@ -3,7 +3,7 @@
    the operation started from, and satisfies the constraint that was run / the domain that was
    posted.  Constraints are dropped only when the domains (or ground operands) already imply them;
    domains only shrink; a variable bound because its domain became one value has that value. *)
-From Coq Require Import List ZArith Bool Arith Lia Sorted.
+From Coq Require Import List ZArith Bool Arith Lia Sorted Permutation.
 From PV Require Import Model.Term Model.Subst Model.Unify Model.FD Model.State Model.Engine
   Proofs.FDProofs Proofs.UnifyProofs Proofs.DiseqProofs Proofs.KeyProofs Proofs.MonoProofs Proofs.DenProofs.
 Import ListNotations.
@@ -64,7 +64,8 @@ Definition choldF (th : val) (c : constraint) : Prop :=
   | KMinus u v w => exists a b r, numv th u a /\ numv th v b /\ numv th w r /\ (a - b = r)%Z
   | KTimes u v w | KTimesZ u v w => exists a b r, numv th u a /\ numv th v b /\ numv th w r /\ (a * b = r)%Z
   | KDiseqFd u v => exists a b, numv th u a /\ numv th v b /\ a <> b
-  | KDistinct _ | KDistinct2 _ _ _ => True
+  | KDistinct u => exists zs, list_of_term (app th u) = map tnum zs /\ NoDup zs
+  | KDistinct2 _ ys n => exists zs, Forall2 (numv th) ys zs /\ NoDup (zs ++ n)
   end.
 Definition storeF (th : val) (store : list (nat * constraint)) : Prop := forall i c, In (i, c) store -> choldF th c.
 Definition domF (th : val) (ds : list (nat * fd)) : Prop := forall x d, In (x, d) ds -> inDom th x d.
@@ -176,6 +177,48 @@ Proof.
     apply (Hd z); apply mem_iter; assumption.
 Qed.
 
+
+(* ---- distinctfd: the elements of the list, read as integers, are pairwise different ---- *)
+Lemma list_of_term_app th : forall v vals, Forall2 (numv th) (list_of_term v) vals -> list_of_term (app th v) = map tnum vals.
+Proof.
+  induction v as [l|x a| |h IHh t IHt|g cs]; intros vals H; cbn [list_of_term] in H.
+  - inversion H as [|? z ? ? Hz Hr]; subst. inversion Hr; subst. unfold numv in Hz. rewrite Hz. reflexivity.
+  - inversion H as [|? z ? ? Hz Hr]; subst. inversion Hr; subst. unfold numv in Hz. rewrite Hz. reflexivity.
+  - inversion H; subst. reflexivity.
+  - inversion H as [|? z ? vals' Hz Hr]; subst. cbn [app list_of_term map]. unfold numv in Hz. rewrite Hz. f_equal. apply IHt, Hr.
+  - inversion H as [|? z ? ? Hz Hr]; subst. unfold numv in Hz. cbn [app] in Hz. discriminate.
+Qed.
+Definition numvals (ts : list term) : list Z := flat_map (fun t => match get_number t with Some z => [z] | None => [] end) ts.
+Lemma split_vals th : forall elems zs,
+  Forall2 (numv th) (filter is_var elems) zs ->
+  forallb (fun t => match get_number t with Some _ => true | None => false end) (filter (fun t => negb (is_var t)) elems) = true ->
+  exists vals, Forall2 (numv th) elems vals /\ Permutation vals (zs ++ numvals (filter (fun t => negb (is_var t)) elems)).
+Proof.
+  induction elems as [|e r IH]; intros zs H1 H2; cbn [filter] in *.
+  - inversion H1; subst. exists []. split; [constructor|constructor].
+  - destruct (is_var e) eqn:Ev; cbn [negb] in *.
+    + inversion H1 as [|? z ? zs' Hz Hr]; subst. destruct (IH zs' Hr H2) as [vals [A B]].
+      exists (z :: vals). split; [constructor; assumption|]. cbn [List.app]. apply perm_skip, B.
+    + cbn [forallb] in H2. apply andb_prop in H2 as [He H2]. destruct (get_number e) as [w|] eqn:Ew; [|discriminate].
+      destruct (IH zs H1 H2) as [vals [A B]]. exists (w :: vals). split.
+      * constructor; [|exact A]. destruct e as [[]| | | |]; try discriminate. inversion Ew; subst. reflexivity.
+      * unfold numvals. cbn [flat_map]. rewrite Ew. cbn [List.app]. apply Permutation_cons_app. exact B.
+Qed.
+Lemma insert_sorted_perm x l : Permutation (insert_sorted x l) (x :: l).
+Proof.
+  induction l as [|y r IH]; cbn [insert_sorted]; [constructor; constructor|].
+  destruct (x <=? y); [apply Permutation_refl|]. eapply perm_trans; [apply perm_skip, IH|apply perm_swap].
+Qed.
+Lemma isort_perm l : Permutation (isort l) l.
+Proof. induction l as [|x r IH]; cbn [isort]; [constructor|]. eapply perm_trans; [apply insert_sorted_perm|apply perm_skip, IH]. Qed.
+Lemma insert_nodup_perm z : forall n n', insert_sorted_nodup z n = Some n' -> Permutation n' (z :: n).
+Proof.
+  induction n as [|y r IH]; intros n' H; cbn [insert_sorted_nodup] in H.
+  - inversion H; subst. apply Permutation_refl.
+  - destruct (z =? y); [discriminate|]. destruct (z <? y); [inversion H; subst; apply Permutation_refl|].
+    destruct (insert_sorted_nodup z r) as [r'|]; [|discriminate]. inversion H; subst.
+    eapply perm_trans; [apply perm_skip, (IH r' eq_refl)|apply perm_swap].
+Qed.
 
 Section Fuelled.
 Variable rcs : state -> sres.
@@ -426,22 +469,64 @@ Proof.
       split; [apply SolF_refl, W|]. intros th HM.
       destruct (operand_domain_val th st u ud HM Du) as [a [Ha Ma]]. destruct (operand_domain_val th st v vd HM Dv) as [b [Hb Mb]].
       exists a, b. split; [exact Ha|]. split; [exact Hb|]. intros ->. apply (disjoint_sub ud vd Wu Wv Edj b Ma Mb).
-  - (* distinctfd: a new object, run at once (no claim on the constraint itself) *)
-    assert (R : forall cc, sresFC (KDistinct u) st (rcr (st_nextc st) cc (bump_nextc st))).
-    { intros cc. pose proof (rcr_FC (st_nextc st) cc (bump_nextc st) W) as H. destruct (rcr _ cc (bump_nextc st)); cbn in *; auto.
-      split; [apply SolF_bump, H|]. intros; exact I. }
-    destruct (wk (st_smap st) u) as [l|xv xa| |h t|g cs]; try exact I;
-      try (pose proof (wc_FC st id (KDistinct u) W) as H; exact H);
-      (destruct (forallb _ _); [|exact I]; destruct (strictly_increasing _); [apply R|exact I]).
-  - match goal with |- sresFC _ _ (match ?X with _ => _ end) => destruct X as [[[[x n']|]|]|site] end; try exact I.
+  - (* distinctfd: a new object, run at once; its claim gives the claim on the list *)
+    destruct (wk (st_smap st) u) as [l|xv xa| |h t|g cs] eqn:Eu; try exact I;
+      try (pose proof (wc_FC st id (KDistinct u) W) as H; exact H).
+    + (* the empty list *)
+      cbn [list_of_term filter forallb flat_map isort strictly_increasing].
+      pose proof (rcr_FC (st_nextc st) (KDistinct2 u [] []) (bump_nextc st) W) as H.
+      destruct (rcr _ _ (bump_nextc st)) as [st'| | |]; try exact I. cbn [sresFC] in *. destruct H as [S _].
+      split; [apply SolF_bump, S|]. intros th HM. exists []. split; [|constructor].
+      assert (Hs : sat th (st_smap st)) by (eapply ext_sat; [apply S|apply HM]).
+      rewrite <- (wk_sat th _ u Hs), Eu. reflexivity.
+    + set (elems := list_of_term (TCons h t)).
+      destruct (forallb _ (filter (fun t0 => negb (is_var t0)) elems)) eqn:Ef; [|exact I].
+      destruct (strictly_increasing _); [|exact I].
+      match goal with |- sresFC _ _ (rcr ?i ?cc _) => pose proof (rcr_FC i cc (bump_nextc st) W) as H; destruct (rcr i cc (bump_nextc st)) as [st'| | |]; try exact I end.
+      cbn [sresFC] in *. destruct H as [S HC]. split; [apply SolF_bump, S|]. intros th HM.
+      destruct (HC th HM) as [zs [Hz Hn]].
+      assert (Hs : sat th (st_smap st)) by (eapply ext_sat; [apply S|apply HM]).
+      destruct (split_vals th elems zs Hz Ef) as [vals [A B]].
+      exists vals. split.
+      * rewrite <- (wk_sat th _ u Hs), Eu. apply list_of_term_app. exact A.
+      * eapply Permutation_NoDup; [|exact Hn]. apply Permutation_sym. eapply perm_trans; [exact B|].
+        apply Permutation_app_head. apply Permutation_sym, isort_perm.
+  - (* the running distinct object: variables still unbound stay, newly bound values join the seen set *)
+    match goal with |- sresFC _ _ (match ?F ys [] n with _ => _ end) => set (step := F) end.
+    assert (SP : forall th, sat th (st_smap st) -> forall ys0 x0 n0 x' n',
+              step ys0 x0 n0 = inl (Some (Some (x', n'))) ->
+              forall zs', Forall2 (numv th) x' zs' ->
+              exists zsy zsx, Forall2 (numv th) ys0 zsy /\ Forall2 (numv th) (rev x0) zsx /\ Permutation (zs' ++ n') (zsy ++ zsx ++ n0)).
+    { intros th Hs. induction ys0 as [|y r IH]; intros x0 n0 x' n' E zs' Hz; cbn [step] in E.
+      - inversion E; subst. exists [], zs'. split; [constructor|]. split; [exact Hz|apply Permutation_refl].
+      - destruct (wk (st_smap st) y) as [[z| | |]|yv ya| | |] eqn:Ey; try discriminate.
+        + destruct (insert_sorted_nodup z n0) as [n1|] eqn:Ei; [|discriminate].
+          destruct (IH x0 n1 x' n' E zs' Hz) as [zsy [zsx [A [B C]]]].
+          exists (z :: zsy), zsx. split; [constructor; [eapply numv_wk; eauto|exact A]|]. split; [exact B|].
+          eapply perm_trans; [exact C|]. cbn [List.app].
+          eapply perm_trans; [apply Permutation_app_head, Permutation_app_head, (insert_nodup_perm _ _ _ Ei)|].
+          rewrite !List.app_assoc. apply Permutation_sym, Permutation_cons_app. rewrite <- !List.app_assoc. apply Permutation_refl.
+        + destruct (IH (y :: x0) n0 x' n' E zs' Hz) as [zsy [zsx [A [B C]]]].
+          cbn [rev] in B. apply Forall2_app_inv_l in B as [zsx1 [zy1 [B1 [B2 ->]]]].
+          inversion B2 as [|? zy ? ? Hzy Hnil]; subst. inversion Hnil; subst.
+          exists (zy :: zsy), zsx1. split; [constructor; assumption|]. split; [exact B1|].
+          eapply perm_trans; [exact C|]. cbn [List.app]. rewrite <- !List.app_assoc. cbn [List.app].
+          apply Permutation_sym. eapply perm_trans; [apply Permutation_middle|]. apply Permutation_app_head.
+          apply Permutation_middle. }
+    destruct (step ys [] n) as [[[[x n']|]|]|site] eqn:Est; try exact I.
     pose proof (wn_FC st (KDistinct2 u x n') W) as H1.
-    destruct n' as [|z n']; [split; [apply H1|intros; exact I]|].
+    assert (Fin : forall r, sresF (with_new_constraint st (KDistinct2 u x n')) r -> sresFC (KDistinct2 u ys n) st r).
+    { intros r Hr. destruct r as [st'| | |]; try exact I. cbn [sresF sresFC] in *. destruct H1 as [S1 C1].
+      split; [eapply SolF_trans; eauto|]. intros th HM.
+      pose proof (MstF_SolF th _ _ Hr HM) as HM1. destruct (C1 th HM1) as [zs' [Hz Hn]].
+      assert (Hs : sat th (st_smap st)) by (eapply ext_sat; [apply S1|apply HM1]).
+      destruct (SP th Hs ys [] n x n' Est zs' Hz) as [zsy [zsx [A [B C]]]]. cbn [rev] in B. inversion B; subst.
+      exists zsy. split; [exact A|]. eapply Permutation_NoDup; [exact C|exact Hn]. }
+    destruct n' as [|z n']; [apply Fin, SolF_refl, H1|].
     destruct (fd_from_vec (z :: n')) as [excl|]; [|exact I].
     assert (W1 : WFD (with_new_constraint st (KDistinct2 u x (z :: n')))) by apply H1.
-    pose proof (exclude_F (st_dstore (with_new_constraint st (KDistinct2 u x (z :: n')))) excl
-                  (fun v d Hf => W1 v d (find_id_in _ _ _ Hf)) x _ W1) as P.
-    match goal with |- sresFC _ _ ?X => destruct X as [st'| | |]; try exact I end. cbn in *.
-    split; [eapply SolF_trans; [apply H1|exact P]|intros; exact I].
+    apply Fin. apply (exclude_F (st_dstore (with_new_constraint st (KDistinct2 u x (z :: n')))) excl
+                  (fun v d Hf => W1 v d (find_id_in _ _ _ Hf)) x _ W1).
   - (* plusz *)
     destruct (wk (st_smap st) u) as [[na|bu|cu|su]|xu au| | |] eqn:Eu, (wk (st_smap st) v) as [[nb|bv|cv|sv]|xv av| | |] eqn:Ev,
              (wk (st_smap st) w) as [[nr|bw|cw|sw]|xw aw| | |] eqn:Ew; try exact I; try (apply wc_FC; exact W).
